@@ -48,6 +48,7 @@ type recipe struct {
 	Via    string `json:"via"`
 	Expect string `json:"model_says"`
 	Got    string `json:"got"`
+	CallerState bool `json:"caller_passes_state_option,omitempty"`
 }
 
 func TestProp_Rotation(t *testing.T) {
@@ -290,7 +291,15 @@ func TestProp_Rotation(t *testing.T) {
 					faulted = fmt.Sprintf("%s fault at storage operation %d", kind, pos)
 					flags["fault-during-refused-request"] = true
 				}
-				resp, rerr := rotation.RotateNodeCredentials(w.Ctx, w.Store, req, w.O()...)
+				// the server application may pass its own options to the call, a state
+				// among them; the new record must still carry over the record's state
+				callOpts := w.O()
+				if rapid.IntRange(0, 2).Draw(t, "callerPassesState") == 0 {
+					callOpts = append(callOpts, nodeenrollment.WithState(vkit.UniqueStruct(fmt.Sprintf("caller-state-%d", len(hist)))))
+					flags["caller-passes-state-option"] = true
+					rp.CallerState = true
+				}
+				resp, rerr := rotation.RotateNodeCredentials(w.Ctx, w.Store, req, callOpts...)
 				w.Rec.Fault = nil
 				if faulted != "" {
 					hist = append(hist, "("+faulted+")")
